@@ -1,5 +1,6 @@
 mod common;
 mod c16;
+mod c13;
 
 fn main() {
     let argv: Vec<String> = std::env::args().collect();
@@ -7,6 +8,7 @@ fn main() {
     let a = common::parse_args(&argv[2..]);
     match argv[1].as_str() {
         "c16" => c16::run(&a),
+        "c13" => c13::run(&a),
         x => { eprintln!("unknown subcommand {x}"); std::process::exit(2); }
     }
 }
